@@ -339,7 +339,9 @@ func runC02(c *Ctx) {
 			}
 		}
 	}))
-	tasks = append(tasks, s.Go("descriptors", func() {
+	// listDescriptors compares what the client lists with the descriptors registered last
+	// (toolDesc == nil: the tool is not registered at the moment and must not be listed).
+	listDescriptors := func(phase string, toolDesc *mcp.Tool, promptDesc *mcp.Prompt, resDesc *mcp.Resource) {
 		ctx, cancel := ctxOf()
 		defer cancel()
 		if lt, err := cl.API.ListTools(ctx, &mcp.ListToolsRequest{}); err != nil {
@@ -351,20 +353,24 @@ func runC02(c *Ctx) {
 					continue
 				}
 				found = true
+				if toolDesc == nil {
+					s.Violate("C02|unregistered-tool-listed|"+transportOf, "%s: the tool was unregistered and is still listed", phase)
+					continue
+				}
 				if x.Description != toolDesc.Description {
-					s.Violate("C02|tool-description|"+transportOf, "%q became %q", short(toolDesc.Description), short(x.Description))
+					s.Violate("C02|tool-description|"+transportOf, "%s: %q is listed as %q", phase, short(toolDesc.Description), short(x.Description))
 				}
 				if d := diff(toolDesc.Annotations, x.Annotations); d != "" {
-					s.Violate("C02|tool-annotations|"+transportOf, "%s", d)
+					s.Violate("C02|tool-annotations|"+transportOf, "%s: %s", phase, d)
 				}
 				var got interface{}
 				json.Unmarshal(x.RawInputSchema, &got)
 				if d := diff(toolDesc.InputSchema, got); d != "" {
-					s.Violate("C02|tool-schema|"+transportOf, "%s", d)
+					s.Violate("C02|tool-schema|"+transportOf, "%s: %s", phase, d)
 				}
 			}
-			if !found {
-				s.Violate("C02|tool-missing|"+transportOf, "registered tool is not listed")
+			if !found && toolDesc != nil {
+				s.Violate("C02|tool-missing|"+transportOf, "%s: registered tool is not listed", phase)
 			}
 		}
 		if lp, err := cl.API.ListPrompts(ctx, &mcp.ListPromptsRequest{}); err != nil {
@@ -373,7 +379,7 @@ func runC02(c *Ctx) {
 			for _, x := range lp.Prompts {
 				if x.Name == "p-described" {
 					if d := diff(promptDesc, x); d != "" {
-						s.Violate("C02|prompt-descriptor|"+transportOf, "%s", d)
+						s.Violate("C02|prompt-descriptor|"+transportOf, "%s: %s", phase, d)
 					}
 				}
 			}
@@ -384,14 +390,65 @@ func runC02(c *Ctx) {
 			for _, x := range lr.Resources {
 				if x.Name == "r-described" {
 					if d := diff(resDesc, x); d != "" {
-						s.Violate("C02|resource-descriptor|"+transportOf, "%s", d)
+						s.Violate("C02|resource-descriptor|"+transportOf, "%s: %s", phase, d)
 					}
 				}
 			}
 		}
-	}))
+	}
+	tasks = append(tasks, s.Go("descriptors", func() { listDescriptors("first listing", toolDesc, promptDesc, resDesc) }))
 	for _, a := range s.WaitTasks(25*time.Minute, tasks...) {
 		s.Violate("C02|stuck|mode="+mode, "%s did not finish", a.Name)
+	}
+	// ---- descriptor histories: "the ones registered" are the ones registered last ----
+	// register / list / re-register under the same name / unregister / list again; the listing
+	// always shows the latest registration, and calls reach the latest handler.
+	curTool, curPrompt, curRes := toolDesc, promptDesc, resDesc
+	toolVersion := "x"
+	for round, n := 1, t.Draw(4); round <= n; round++ {
+		ver := fmt.Sprintf("v%d", round)
+		op := []string{"tool", "tool", "prompt", "resource", "unregister-tool", "unregister-register"}[t.Draw(6)]
+		phase := fmt.Sprintf("listing %d after %s", round+1, op)
+		w.register(func(r registrar) {
+			switch op {
+			case "tool", "unregister-register":
+				if op == "unregister-register" {
+					r.UnregisterTools("described")
+				}
+				curTool = mcp.NewTool("described", mcp.WithDescription("description "+ver+" "+c02String(c02StringClasses[1+t.Draw(6)], "td", false)),
+					mcp.WithString("s"+ver, mcp.Description("a string "+ver)), mcp.WithNumber("n"),
+					mcp.WithToolAnnotations(&mcp.ToolAnnotations{Title: "T " + ver, ReadOnlyHint: boolp(round%2 == 0), IdempotentHint: boolp(true)}))
+				toolVersion = ver
+				r.RegisterTool(curTool, func(ctx context.Context, req *mcp.CallToolRequest) (*mcp.CallToolResult, error) {
+					return &mcp.CallToolResult{Content: []mcp.Content{mcp.NewTextContent(ver)}}, nil
+				})
+			case "prompt":
+				curPrompt = &mcp.Prompt{Name: "p-described", Description: "prompt " + ver, Arguments: []mcp.PromptArgument{{Name: "a" + ver, Required: round%2 == 1}}}
+				r.RegisterPrompt(curPrompt, func(ctx context.Context, req *mcp.GetPromptRequest) (*mcp.GetPromptResult, error) {
+					return &mcp.GetPromptResult{Description: ver}, nil
+				})
+			case "resource":
+				curRes = &mcp.Resource{Name: "r-described", URI: "res://described", Description: "resource " + ver, MimeType: "text/" + ver, Size: int64(round)}
+				r.RegisterResource(curRes, func(ctx context.Context, req *mcp.ReadResourceRequest) (mcp.ResourceContents, error) {
+					return mcp.TextResourceContents{URI: "res://described", Text: ver}, nil
+				})
+			case "unregister-tool":
+				r.UnregisterTools("described")
+				curTool = nil
+			}
+		})
+		listDescriptors(phase, curTool, curPrompt, curRes)
+		if curTool != nil {
+			ctx, cancel := ctxOf()
+			res, err := cl.API.CallTool(ctx, callToolReq("described", map[string]interface{}{"s": "x", "s" + toolVersion: "x"}))
+			cancel()
+			if err != nil {
+				s.Violate("C02|call-after-reregistration-failed|"+transportOf, "%s: %v", phase, err)
+			} else if got := textOf(res); got != toolVersion {
+				s.Violate("C02|stale-handler|"+transportOf, "%s: the call reached the handler of version %q, the latest registration is %q", phase, got, toolVersion)
+			}
+		}
+		s.Probe("c02.descriptor_history." + op)
 	}
 	// raw wire bytes through the shared schema oracle
 	if _, problems := httpFrames(c); len(problems) > 0 && mode != "stdio" {
